@@ -28,11 +28,6 @@ inductive Needle where
   | str (s : List Nat)
   deriving Repr, DecidableEq, Inhabited
 
-/-- `std::char_traits<char>::length(p)`: bytes before the first NUL -/
-def strlen : List Nat → Nat
-  | [] => 0
-  | c :: rest => if c = 0 then 0 else strlen rest + 1
-
 /-- `substr[0]` of a C string (reads the terminator when no byte is stored before it) -/
 def firstOf : List Nat → Nat
   | [] => 0
